@@ -34,7 +34,9 @@ def user_body(db, fn, marker=None):
 
 
 def calls(fn, *subs):
-    return fn.cfg.calls_named(*subs)
+    """Call sites by callee-name substring.  `Future::poll` of an awaited async body resolves to `<callee>::{closure#0}`;
+    those are the await points of a call already listed, not call sites of their own, and are skipped."""
+    return [(b, t) for b, t in fn.cfg.calls_named(*subs) if "::{closure#" not in name_of(t)]
 
 
 def one_call(fn, *subs):
@@ -64,7 +66,7 @@ def result_switches(c, call_bb):
         if not c.dominates(call_bb, b):
             continue
         org = c.origins(si["place"][0])
-        if ("call", nm, call_bb) in org:
+        if ("call", nm, call_bb) in org or ("via", nm, call_bb) in org:
             out.append(b)
     return out
 
